@@ -180,6 +180,9 @@ fn hot_spans(h: &History) -> Vec<(usize, usize)> {
 /// size, and equal to the sequential build — for valid files and for their
 /// fault-corrupted variants alike.
 pub fn c08_schedules(ctx: &Ctx, out: &mut RunOut) -> Result<(), Violation> {
+    for k in ["mode-t-loads", "files-with-all-orders-enumerated", "orders-enumerated-exhaustively", "baton-choice-at-contended-lock", "big-object-stream-docs", "image-fault-corrupted"] {
+        ctx.count_n(k, 0); // registered so that a probe that never fires shows up as zero in the evidence
+    }
     let h = gen_history(ctx, 3, true, false, false);
     let last = h.revisions.len() - 1;
     selfcheck_written(&h, last);
